@@ -1,4 +1,6 @@
 import CoercionModel.Proofs.Validate
+import CoercionModel.Model.SkeletonsMore
+import CoercionModel.Generated.F12
 set_option linter.unusedSimpArgs false
 /-
   C16 — Submit admits exactly the well-formed plans; rejects leave no trace.
@@ -75,5 +77,10 @@ example : result (validate (some { exPlan with blocks := [{ key := 7, groups := 
   decide
 example : result (validate (some { exPlan with blocks := [{ groups := [], seqs := [{ actions := [{ timeoutMs := 4999 }] }] }] })) = some .timeoutLow := by
   decide
+
+set_option maxRecDepth 100000 in
+/-- the code this property's model mirrors still has the shape the model was written against (control-flow
+    skeletons regenerated from /repo on every run, Model/SkeletonsMore) -/
+theorem facts_model_skeleton : Generated.F12.validate = SkeletonsMore.validate := by decide +kernel
 
 end Coercion.C16
